@@ -35,7 +35,11 @@ ASSUMPTIONS = [
     'the dumping rule is checked for mapping classes; enum and string-like classes are covered on the loading side',
 ]
 SHAPES = {'chain1': [None], 'chain2': [None, 0], 'chain3': [None, 0, 1], 'fork2': [None, 0, 0], 'fork3': [None, 0, 0, 0],
-          'chainfork': [None, 0, 1, 1]}
+          'chainfork': [None, 0, 1, 1],
+          # multiple inheritance over registered classes (beyond the quantifier of the property, inside its statement:
+          # "each called exactly once, ancestors before descendants"); siblings may come in either order
+          'diamond': [None, 0, 0, (1, 2)], 'diamondtail': [None, 0, 0, (1, 2), 3]}
+MULTI = ('diamond', 'diamondtail')
 POSITIONS = ['top', 'list', 'dict', 'attr', 'union']
 
 
@@ -50,10 +54,18 @@ def ancestors_first(parents, i):
     """linearisation used by the rule: registered bases (recursively) first, then the class"""
     out = []
     p = parents[i]
-    if p is not None:
-        out += ancestors_first(parents, p)
+    for q in (p if isinstance(p, tuple) else (() if p is None else (p,))):
+        out += [j for j in ancestors_first(parents, q) if j not in out]
     out.append(i)
     return out
+
+
+def same_up_to_siblings(parents, exp, got):
+    """multiple inheritance: the same hooks, each once, every ancestor before its descendants"""
+    if set(got) != set(exp) or sorted(got.values()) != sorted(exp.values()):
+        return False
+    idx = {int(k.split('C')[1]): v for k, v in got.items()}
+    return all(idx[a] < idx[d] for d in idx for a in ancestors_first(parents, d)[:-1] if a in idx)
 
 
 def required_params(parents, i):
@@ -82,7 +94,7 @@ def make_spec(shape, Sset, Rset, Wset, mixin=None, raise_at=None, position='top'
             hooks['sweeten'] = [('stamp', 'w_C%d' % i)]
         if i in Rset:
             hooks['recognize'] = [('require_attr', q) for q in req]
-        bases = [] if p is None else ['C%d' % p]
+        bases = ['C%d' % q for q in (p if isinstance(p, tuple) else (() if p is None else (p,)))]
         if mixin is not None and mixin[0] == i:
             bases = (['Mx'] + bases) if mixin[1] == 'before' else (bases + ['Mx'])
         classes.append({'name': 'C%d' % i, 'bases': bases, 'params': [(q, 'int') for q in req] + stamps, 'hooks': hooks})
@@ -111,7 +123,8 @@ def units(tier):
             out.append(('mixin', shape, i, 'after', i))            # mix-in named like the class it is mixed into
             out.append(('mixin', shape, i, 'before', (i + 1) % n))  # ... or like another registered class
         out.append(('raise', shape))
-        out.append(('incremental', shape))
+        if shape not in MULTI:
+            out.append(('incremental', shape))
     out.append(('scalar-classes',))
     return out
 
@@ -198,6 +211,9 @@ def check_load(res, spec, shape, Sset, Rset, position, i, text, parents, raise_a
             res.violation('C10:wrong-class:%s' % fam, '%r at %s gave %s, expected C%d' % (text, position, show(obj), c), pl)
             return
         got = {k: v for k, v in obj._kw.items() if k.startswith('s_') and v != 0}
+        if got != exp and shape in MULTI and same_up_to_siblings(parents, exp, got):
+            lin = sorted(lin, key=lambda j: got['s_C%d' % j])
+            got = exp
         if got != exp:
             twice = any(isinstance(v, int) and v >= 100 for v in got.values())
             missing = [k for k in exp if k not in got]
@@ -309,6 +325,9 @@ def dump_space(res, shape, Wsets, mixin=None, fam='dump'):
                         exp = {'w_C%d' % j: k + 1 for k, j in enumerate(lin)}
                         got = {k: x for k, x in d.items() if k.startswith('w_')} if isinstance(d, dict) else None
                         seq += [('sweeten', 'C%d' % j, 'C%d' % j) for j in lin]
+                        if got != exp and shape in MULTI and got and same_up_to_siblings(parents, exp, got):
+                            seq[-len(lin):] = [('sweeten', 'C%d' % j, 'C%d' % j) for j in sorted(lin, key=lambda j: got['w_C%d' % j])] if lin else []
+                            got = exp
                         if got != exp:
                             twice = bool(got) and any(isinstance(x, int) and x >= 100 for x in got.values())
                             what = 'twice' if twice else ('foreign' if got and any(k not in exp for k in got) else
